@@ -39,6 +39,9 @@ CATALOG = [
     [["open_bad", [[LC, True], ["NOPE", 0]]], ["read", LC]],
     [["open", [[DS, "j"]]], ["assign", DS, "k"], ["read", DS], ["close"]],
     [["read", TS], ["open", [[TS, "true"]]], ["read", TS], ["close"]],
+    # a later scope that does not mention a key set by an earlier, closed scope must see the base value for it
+    [["open", [[DS, "m"]]], ["close"], ["open", [[TS, True]]], ["read", DS], ["close"]],
+    [["open", [[LC, True]]], ["raise"], ["open", [[DS, "n"]]], ["read", LC], ["close"]],
 ]
 
 
